@@ -8,6 +8,7 @@ from mirsym.models import is_ws, str_push
 from .common import *
 from mirsym.harness import process_failed, witness, discharge_known
 
+from .c01 import job_token_inductive, replayer as lemma_replayer
 PID = 'C08'
 
 
@@ -212,6 +213,7 @@ def job_error_kinds(ctx, jr, B):
 
 # ---------------------------------------------------------------------- native replay
 def replayer(v):
+    if v.get('kind') == 'c01_lemma': return lemma_replayer(v)
     out = H.replay(dict(mode='parse', text=v['text'])); v['native'] = out
     if out.get('panic'): return (True, 'native panic')
     if v['kind'] == 'c08_error':
@@ -255,13 +257,17 @@ def main(tier, seed):
         chk.job(job_any_line, 'a:line<=8', L=8)
         chk.job(job_script, 'b:3x3', n=3, W=3)
         chk.job(job_error_kinds, 'c:kinds', B=2)
-        chk.bounds = dict(a='one arbitrary line <= 8 chars', b='<= 3 arbitrary lines x <= 3 chars, LF/CRLF', c='10 malformed classes with <= 2 free chars at line 1..3')
+        chk.job(job_token_inductive, 'd:scanner error lemmas', N=24, C=12, part='C08')
+        chk.bounds = dict(a='one arbitrary line <= 8 chars', b='<= 3 arbitrary lines x <= 3 chars, LF/CRLF', c='10 malformed classes with <= 2 free chars at line 1..3',
+                          d='per-iteration lemmas of the token scanner: any position of a buffer <= 24, accumulated text <= 12 (DESIGN 8.6)')
     else:
         chk.job(job_any_line, 'a:line<=12', L=12)
         chk.job(job_script, 'b:4x3', n=4, W=3)
         chk.job(job_script, 'b:2x6', n=2, W=6)
         chk.job(job_error_kinds, 'c:kinds', B=4)
-        chk.bounds = dict(a='one arbitrary line <= 12 chars', b='<= 4 lines x <= 3 chars and <= 2 lines x <= 6 chars', c='10 malformed classes with <= 4 free chars')
+        chk.job(job_token_inductive, 'd:scanner error lemmas', N=64, C=32, part='C08')
+        chk.bounds = dict(a='one arbitrary line <= 12 chars', b='<= 4 lines x <= 3 chars and <= 2 lines x <= 6 chars', c='10 malformed classes with <= 4 free chars',
+                          d='per-iteration lemmas of the token scanner: any position of a buffer <= 64, accumulated text <= 32 (DESIGN 8.6)')
     chk.assumptions = ['std models for String/Vec/str::lines/trim/chars; the text is built line by line (unique LF/CRLF decomposition)',
                        '!include_files is stubbed (returns no instructions); count/equality claims exclude texts that execute it (C14 covers includes)',
                        'print! of the !print pre-processor is a no-op']
